@@ -47,6 +47,7 @@ def run(ctx):
         ctx.ob("E.DROP-EVICTS", f.id, ok, "file removed and cached mapping evicted" if ok else
                "DROP removes the file but not the cached mapping (or vice versa)", f.loc())
     migrate_every_row(ctx)
+    sticky_flags(ctx)
 
 
 def migrate_every_row(ctx):
@@ -91,3 +92,66 @@ def migrate_every_row(ctx):
                "a row that was found can be skipped without being rewritten (%s): it keeps the old layout and is decoded under the new schema"
                % (describe_path(f, esc[0]) if esc else "no write-back queue"), sc.loc())
     ctx.floor("M1.row_lookups", n, 1)
+
+
+def sticky_flags(ctx):
+    """M2 STICKY-FLAG: the DDL statements that take a list of names (DROP TABLE a, b, c ...) decide after the loop whether to
+    persist the catalog from a flag that means "some iteration changed the catalog".  Such a flag — a bool initialised to false before
+    a loop, assigned inside it and tested after it — may only be set to `true` inside the loop (or OR-ed with itself): assigning it a
+    per-iteration value makes the decision depend on the last name only, and a change made for an earlier name is not saved."""
+    from model import operand_place
+    from paths import const_value
+    m = ctx.m
+    n = 0
+    for f in sorted(m.fns.values(), key=lambda f: f.id):
+        if f.kind == "closure" or not f.id.startswith("database::ddl::"):
+            continue
+        loops = [(h, set(b)) for h, b in f.loops()]
+        if not loops:
+            continue
+        inloop = set().union(*[b for _, b in loops])
+        for l, ty in enumerate(f.locals):
+            if ty != "bool" or not any(dn[1][0] == l and not dn[1][1] for dn in f.dbg):
+                continue     # source-level variables only (compiler drop flags are bool locals too)
+            ds = [d for d in f.defs().get(l, []) if d[0] == "stmt"]
+            if len(ds) < 2 or len(ds) != len(f.defs().get(l, [])):
+                continue
+            outside_false = [d for d in ds if d[1] not in inloop and d[3][0] == "use" and const_value(f, d[3][1]) == 0]
+            inside = [d for d in ds if d[1] in inloop]
+            if not outside_false or not inside:
+                continue
+            # tested after the loop: a switch outside every loop containing the stores, on the local (or a plain copy of it)
+            tested = False
+            for bb, b in enumerate(f.blocks):
+                t = b["t"]
+                if t[0] != "switch" or t[2] != "bool" or bb in inloop:
+                    continue
+                q = operand_place(t[1])
+                x = q[0] if q is not None and not q[1] else None
+                for _ in range(4):
+                    if x is None or x == l:
+                        break
+                    dd = f.defs().get(x, [])
+                    if len(dd) == 1 and dd[0][0] == "stmt" and dd[0][3][0] == "use" and operand_place(dd[0][3][1]) and not operand_place(dd[0][3][1])[1]:
+                        x = operand_place(dd[0][3][1])[0]
+                    else:
+                        x = None
+                if x == l:
+                    tested = True
+            if not tested:
+                continue
+            n += 1
+            bad = []
+            for d in inside:
+                rv = d[3]
+                if rv[0] == "use" and const_value(f, rv[1]) == 1:
+                    continue
+                if rv[0] == "bin" and rv[1] == "BitOr" and any(operand_place(o) is not None and operand_place(o)[0] == l for o in (rv[2], rv[3])):
+                    continue
+                bad.append(d)
+            name = next((dn[0] for dn in f.dbg if dn[1][0] == l and not dn[1][1]), "_%d" % l)
+            ctx.ob("M2.STICKY-FLAG", "%s:%s" % (f.id.rsplit("::", 1)[-1], name), not bad, "`%s` is only ever set to true inside the loop" % name if not bad else
+                   "`%s` is false before the loop, tested after it, and assigned a per-iteration value inside it (L%s): what an earlier "
+                   "iteration did is forgotten when the last one does nothing (e.g. the catalog is not saved after DROP TABLE IF EXISTS a, missing)"
+                   % (name, f.blocks[bad[0][1]].get("l")), "%s:%s" % (f.file, f.blocks[bad[0][1]].get("l") if bad else f.line))
+    ctx.floor("M2.sticky_flags", n, 1)
